@@ -33,12 +33,14 @@ def REQUIRED(tier):
     req.pop("apply:BM/TYPE_CONST_OF_MULTIPLY", None)
     req["value:compared:expression"] = 1000
     req["value:compared:side-of-equation"] = 50
+    req["value:rewritten-tree-evaluated"] = 1000
     return req
 
 
 def run(rec, cfg):
     rec.accept = {"value"}
-    MR.CHECKS.update({"value"})
+    rec.alias = set(getattr(rec, "alias", set()) or set()) | {"C05"}
+    MR.CHECKS.update({"value", "evaluate-after"})
     MR.attach_apply()
     rng = cfg.rng("c01")
     rules = RC.with_flippers(MR.rule_instances())
@@ -72,6 +74,14 @@ def run(rec, cfg):
 
 
 def replay(rec, cfg, w):
-    MR.CHECKS.update({"value"})
+    rec.alias = set(getattr(rec, "alias", set()) or set()) | {"C05"}
+    MR.CHECKS.update({"value", "evaluate-after"})
     MR.attach_apply()
+    if "context" in w and "rule" not in w:
+        # a witness of the evaluation monitor (the rewritten tree evaluated by the implementation)
+        from . import c05
+
+        rec.alias = rec.alias | {"C05"}
+        c05.replay(rec, cfg, w)
+        return
     D.replay_apply(w)
